@@ -341,7 +341,12 @@ func (c *SCIONClient) measureClockOffsetSCION(ctx context.Context, mtrcs *scionC
 	}
 	cTxTime1, id, err := udp.ReadTXTimestamp(conn)
 	if err != nil || id != 0 {
-		cTxTime1 = timebase.Now()
+		// Without a kernel timestamp, use a reading taken before the request
+		// was sent: a transmit time that is too early only widens the measured
+		// round-trip delay, one that is too late (the wait above has already
+		// taken a millisecond) puts the offset outside of it. The nanosecond
+		// keeps the value distinct from the request's transmit timestamp.
+		cTxTime1 = cTxTime0.Add(time.Nanosecond)
 		c.Log.LogAttrs(ctx, slog.LevelError, "failed to read packet tx timestamp", slog.Any("error", err))
 	}
 	mtrcs.reqsSent.Inc()
